@@ -43,7 +43,16 @@ def r1_def_ident(c, facts):
             c.bad(R, 'compared-value-not-core-definition', 'the value compared in find_references is not the definition stored by the resolver on the variable node')
     mods = P.call_blocks(fr, 'ModuleSet::modules')
     desc = P.call_blocks(fr, 'NodeRef::descendants')
-    if mods and desc and desc[0][0] in fr.reachable_from(mods[0][0]):
+    subset = []
+    if mods:
+        for b, t in P.call_blocks(fr, 'Iterator::next'):
+            sl = MF.slice_back(fr, t['args'][0]['l'], idx, stop_at=lambda n: P.strip(n).split('::')[-1] in ('descendants', 'next', 'root', 'children'))
+            ns = {P.strip(n).split('::')[-1] for n, _, _ in sl['calls']}
+            if 'modules' in ns:
+                subset += sorted(ns & {'filter', 'take', 'skip', 'take_while', 'skip_while', 'filter_map', 'step_by', 'find', 'nth', 'last', 'min_by_key', 'max_by_key'})
+    if subset:
+        c.bad(R, 'references-module-subset:%s' % ','.join(sorted(set(subset))), 'find_references searches only a subset of the folder\'s modules (%s on ModuleSet::modules()): uses bound to the definition in the other modules are not returned' % ', '.join(sorted(set(subset))))
+    elif mods and desc and desc[0][0] in fr.reachable_from(mods[0][0]):
         c.ok(R, {'find_references': 'walks the descendants of every module of the folder'})
     else:
         c.bad(R, 'references-not-over-all-modules', 'find_references no longer walks every module of the folder (uses in importing modules are missed)')
